@@ -27,7 +27,8 @@ RULE = ("Fault points are enumerated from clean traced runs: for each of a seede
         "exception reaches the caller multiprocessing.active_children() holds no process that was not there before; a "
         "following clean call returns bitwise the clean result. A shared counter proves the fault fired. Non-trivial = the "
         "fault fired in a round >= 1 or under a multi-worker pool; distinct by SHA-1 of (configuration, fault point)."
-        ' Donor shortage also with a starved cluster of exactly one point.')
+        ' Donor shortage also with a starved cluster of exactly one point.'
+        " Process state (NumPy error handling, the library's environment switches, signal handlers, cwd, the library's logger, multiprocessing.Pool) is compared before and after every fault case.")
 ASSUMPTIONS = ["faults are injected by substituting module attributes the library looks up at call time; workers inherit the substitute by fork",
                "only standard picklable exception types are injected (an exception that cannot be unpickled hangs multiprocessing itself)",
                "the harness controls which task fails, not the OS schedule of the other tasks"]
